@@ -49,6 +49,30 @@ func GenValue(t *rapid.T, n *Node, mode ValueMode, cfg Config) (reflect.Value, m
 
 func (g *valueGen) free() bool { return g.mode == FreeMode }
 
+// boundaryLen occasionally returns a length right at the capacity of the length prefix (255/256/257 for one byte,
+// 65535/65536 for two bytes): the largest length that fits must encode, the next one must be refused.
+func (g *valueGen) boundaryLen(s Settings, label string, allow16 bool) (int, bool) {
+	if s.Max != 0 || rapid.IntRange(0, 39).Draw(g.t, label+".boundary") != 0 {
+		return 0, false
+	}
+	switch {
+	case s.Prefix == 1 && g.free():
+		g.Labels["prefix_capacity_boundary"] = true
+		return rapid.SampledFrom([]int{255, 256, 257}).Draw(g.t, label+".blen"), true
+	case s.Prefix == 1:
+		g.Labels["prefix_capacity_boundary"] = true
+		return 255, true
+	case s.Prefix == 2 && allow16 && g.free():
+		g.Labels["prefix_capacity_boundary"] = true
+		return rapid.SampledFrom([]int{65535, 65536}).Draw(g.t, label+".blen"), true
+	case s.Prefix == 2 && allow16:
+		g.Labels["prefix_capacity_boundary"] = true
+		return 65535, true
+	}
+
+	return 0, false
+}
+
 func (g *valueGen) drawLen(s Settings, label string, natural int) int {
 	if g.free() {
 		return rapid.IntRange(0, natural+2).Draw(g.t, label+".len")
@@ -137,6 +161,10 @@ func (g *valueGen) drawString(s Settings, label string) string {
 	if g.free() && rapid.IntRange(0, 5).Draw(g.t, label+".badutf8") == 0 {
 		g.Labels["invalid_utf8"] = true
 		return string(rapid.SliceOfN(rapid.SampledFrom([]byte{0xff, 0xfe, 'a', 0xc3, 0x80}), 1, 4).Draw(g.t, label+".raw"))
+	}
+	if bl, ok := g.boundaryLen(s, label, true); ok {
+		fill := rapid.SampledFrom([]byte{'a', 'z', '0'}).Draw(g.t, label+".fill")
+		return string(bytes.Repeat([]byte{fill}, bl))
 	}
 	n := g.drawLen(s, label, 5)
 	rs := rapid.SliceOfN(rapid.SampledFrom(runeAlphabet), n, n).Draw(g.t, label+".runes")
@@ -240,6 +268,10 @@ func (g *valueGen) fill(n *Node, v reflect.Value, label string) {
 	case KString:
 		v.SetString(g.drawString(n.S, label))
 	case KBytes:
+		if bl, ok := g.boundaryLen(n.S, label, true); ok {
+			v.SetBytes(bytes.Repeat([]byte{rapid.Byte().Draw(g.t, label+".fill")}, bl))
+			return
+		}
 		l := g.drawLen(n.S, label, 5)
 		b := g.drawBytes(l, label)
 		if l == 0 && rapid.Bool().Draw(g.t, label+".nil") {
@@ -345,6 +377,17 @@ func (g *valueGen) fillIface(n *Node, im *Node, v reflect.Value, label string) {
 
 func (g *valueGen) fillSlice(n *Node, v reflect.Value, label string) {
 	cnt := g.drawLen(n.S, label, g.cfg.MaxElems)
+	if n.Elem.Kind <= KFloat64 && !n.S.NoDup && !n.S.LexValid {
+		if bl, ok := g.boundaryLen(n.S, label, false); ok {
+			// element count at the capacity of a one-byte prefix (cheap fixed-width elements only)
+			out := reflect.MakeSlice(n.T, bl, bl)
+			for i := 0; i < bl; i++ {
+				g.fill(n.Elem, out.Index(i), label+".be")
+			}
+			v.Set(out)
+			return
+		}
+	}
 	if cnt == 0 {
 		if rapid.Bool().Draw(g.t, label+".nilslice") {
 			v.Set(reflect.Zero(n.T))
